@@ -1,8 +1,13 @@
 package main
 
 import (
+	"encoding/json"
 	"fmt"
+	"reflect"
+	"sort"
+	"strings"
 
+	"github.com/privacybydesign/gabi"
 	gbig "github.com/privacybydesign/gabi/big"
 	"github.com/privacybydesign/gabi/keyproof"
 	"github.com/privacybydesign/gabi/safeprime"
@@ -24,20 +29,908 @@ func toyKeyPrimes(bits int) (p, q *gbig.Int) {
 	}
 }
 
+// ---------- generic alteration of proof objects ----------
+
+type leaf struct {
+	path string
+	v    reflect.Value // a *big.Int field, a slice or a map (settable)
+}
+
+func collectLeaves(path string, v reflect.Value, out *[]leaf) {
+	switch v.Kind() {
+	case reflect.Ptr:
+		if v.Type() == reflect.TypeOf((*gbig.Int)(nil)) {
+			if v.CanSet() {
+				*out = append(*out, leaf{path, v})
+			}
+			return
+		}
+		if !v.IsNil() {
+			collectLeaves(path, v.Elem(), out)
+		}
+	case reflect.Struct:
+		for i := 0; i < v.NumField(); i++ {
+			if v.Type().Field(i).PkgPath != "" {
+				continue // unexported (name)
+			}
+			collectLeaves(path+"."+v.Type().Field(i).Name, v.Field(i), out)
+		}
+	case reflect.Slice:
+		if v.CanSet() && v.Len() > 0 {
+			*out = append(*out, leaf{path + "[]", v})
+		}
+		for i := 0; i < v.Len(); i++ {
+			collectLeaves(fmt.Sprintf("%s[%d]", path, i), v.Index(i), out)
+		}
+	case reflect.Map:
+		if v.CanSet() && v.Len() > 0 {
+			*out = append(*out, leaf{path + "{}", v})
+		}
+		// map values are not addressable: rebuilt by the map-level alteration
+	}
+}
+
+// kindOfPath: the path with indices removed, for the measured distribution
+func kindOfPath(p string) string {
+	var sb strings.Builder
+	skip := false
+	for _, c := range p {
+		if c == '[' {
+			skip = true
+			sb.WriteString("[")
+			continue
+		}
+		if c == ']' {
+			skip = false
+		}
+		if !skip {
+			sb.WriteRune(c)
+		}
+	}
+	return sb.String()
+}
+
+// alter changes one leaf in place; returns a description, or "" if nothing could be changed
+func alter(l leaf, rng *Rng) string {
+	switch l.v.Kind() {
+	case reflect.Ptr:
+		cur := l.v.Interface().(*gbig.Int)
+		switch rng.Intn(5) {
+		case 0:
+			l.v.Set(reflect.Zero(l.v.Type()))
+			return "nil"
+		case 1:
+			l.v.Set(reflect.ValueOf(bi(0)))
+			if cur != nil && cur.Sign() == 0 {
+				l.v.Set(reflect.ValueOf(bi(1)))
+			}
+			return "zero"
+		default:
+			if cur == nil {
+				l.v.Set(reflect.ValueOf(bi(1)))
+				return "set"
+			}
+			l.v.Set(reflect.ValueOf(new(gbig.Int).Add(cur, bi(1))))
+			return "+1"
+		}
+	case reflect.Slice:
+		switch rng.Intn(3) {
+		case 0:
+			l.v.Set(l.v.Slice(0, l.v.Len()-1))
+			return "truncated"
+		case 1:
+			l.v.Set(reflect.Append(l.v, l.v.Index(0)))
+			return "extended"
+		default:
+			if l.v.Len() >= 2 {
+				a, b := l.v.Index(0).Interface(), l.v.Index(l.v.Len()-1).Interface()
+				if !reflect.DeepEqual(a, b) {
+					tmp := reflect.ValueOf(a)
+					l.v.Index(0).Set(l.v.Index(l.v.Len() - 1))
+					l.v.Index(l.v.Len() - 1).Set(tmp)
+					return "swapped"
+				}
+			}
+			l.v.Set(l.v.Slice(0, l.v.Len()-1))
+			return "truncated"
+		}
+	case reflect.Map:
+		keys := l.v.MapKeys()
+		sort.Slice(keys, func(i, j int) bool { return keys[i].String() < keys[j].String() })
+		k := keys[rng.Intn(len(keys))]
+		switch rng.Intn(3) {
+		case 0:
+			l.v.SetMapIndex(k, reflect.Value{})
+			return "key-deleted"
+		case 1:
+			// one entry of the list altered
+			old := l.v.MapIndex(k)
+			n := reflect.MakeSlice(old.Type(), old.Len(), old.Len())
+			reflect.Copy(n, old)
+			if n.Len() > 0 {
+				i := rng.Intn(n.Len())
+				if x, ok := n.Index(i).Interface().(*gbig.Int); ok && x != nil {
+					n.Index(i).Set(reflect.ValueOf(new(gbig.Int).Add(x, bi(1))))
+				}
+			}
+			l.v.SetMapIndex(k, n)
+			return "entry+1"
+		default:
+			old := l.v.MapIndex(k)
+			if old.Len() > 0 {
+				l.v.SetMapIndex(k, old.Slice(0, old.Len()-1))
+				return "entry-truncated"
+			}
+			l.v.SetMapIndex(k, reflect.Value{})
+			return "key-deleted"
+		}
+	}
+	return ""
+}
+
+// clone through the serialisation the proofs travel in
+func jsonClone(src, dst interface{}) {
+	b, err := json.Marshal(src)
+	if err != nil {
+		panic(err)
+	}
+	if err := json.Unmarshal(b, dst); err != nil {
+		panic(err)
+	}
+}
+
+func sameList(a, b []*gbig.Int) bool {
+	if len(a) != len(b) {
+		return false
+	}
+	for i := range a {
+		if (a[i] == nil) != (b[i] == nil) || (a[i] != nil && a[i].Cmp(b[i]) != 0) {
+			return false
+		}
+	}
+	return true
+}
+
+func checkV(structure bool, list []*gbig.Int, panicked bool) V {
+	if !structure {
+		return L{0, nil}
+	}
+	if panicked {
+		return L{1, panicV()}
+	}
+	return L{1, okV(dumpBigs(list))}
+}
+
+// a range-proof map with an unexpected extra key makes the verifier index out of range; that is a
+// crash on hostile input, not an acceptance: recorded, not counted against C17
+func notePanic(s *Suite, what string) { s.Count("verifier-panicked-on-altered-proof:" + what) }
+
 func suiteC17(s *Suite, rng *Rng, tier string) {
 	lr := &lockedReader{rng: rng}
 	useReader(lr)
-	p, q := toyKeyPrimes(48)
-	n := new(gbig.Int).Mul(p, q)
-	bases := []*gbig.Int{}
-	for i := 0; i < 2; i++ {
-		r := rng.Below(n)
-		bases = append(bases, r.Mul(r, r).Mod(r, n))
+	var seed [32]byte
+	rng.Read(seed[:])
+	gabi.VerifSetGlobalCPRNG(&seed)
+	thorough := tier == "thorough"
+
+	c17Gennaro(s, rng, thorough)
+	c17Components(s, rng, thorough)
+	c17Whole(s, rng, thorough)
+
+	s.Notes["rule"] = "(a) quasi-safe-prime-product proofs (square-free, prime-power-product, disjoint-prime-product, almost-safe-prime-product) on good toy moduli, with every response altered, and on bad moduli " +
+		"(square factor, three prime factors, prime power, prime, factors that are not almost safe primes, N not 5 mod 8, small factor) with best-effort cheating provers knowing the factorisation; " +
+		"(b) the Camenisch-style components (pedersen, multiplication, exponentiation with its OR-composed steps, primality, bases-are-squares) built and checked through in-package hooks over small groups, honest / simulated / " +
+		"altered in one leaf chosen over the whole proof tree, model commitments compared with the implementation's; (c) whole key proofs at 48..96-bit primes with 1..4 bases through the public API: honest, after a JSON round trip, " +
+		"against another modulus or base list, and with sampled single-leaf alterations; distinct by (component, instance, altered path)"
+}
+
+// ---------- (a) Gennaro proofs ----------
+
+func nextSafePrime(rng *Rng, bits int) *gbig.Int {
+	for {
+		x, err := safeprime.Generate(bits, nil)
+		if err == nil && x != nil {
+			return x
+		}
 	}
-	st := keyproof.NewValidKeyProofStructure(n, bases)
-	proof := st.BuildProof(new(gbig.Int).Rsh(p, 1), new(gbig.Int).Rsh(q, 1))
-	in := L{n, dumpBigs(bases), b2i(proof.GroupPrime.ProbablyPrime(80)), b2i(new(gbig.Int).Rsh(proof.GroupPrime, 1).ProbablyPrime(80)), b2i(n.ProbablyPrime(80)), dValidKey(proof)}
-	ok := st.VerifyProof(proof)
-	s.Add(1701, "whole-proof-honest", false, in, okV(b2i(ok)))
-	fmt.Println("verify", ok)
+}
+
+func qsppCase(s *Suite, kind string, n, c *gbig.Int, proof keyproof.QuasiSafePrimeProductProof, small bool) (structure, ok, panicked bool) {
+	in := L{n, c, b2i(n.ProbablyPrime(40)), dQspp(proof)}
+	func() {
+		defer func() {
+			if r := recover(); r != nil {
+				panicked = true
+			}
+		}()
+		structure, ok = keyproof.VerifQuasiSafePrimeProductVerify(n, c, proof)
+	}()
+	var out V
+	switch {
+	case !structure && !panicked:
+		out = L{0, nil}
+	case panicked:
+		out = L{1, panicV()}
+	default:
+		out = L{1, okV(b2i(ok))}
+	}
+	s.Add(1703, "qspp:"+kind, small, in, out)
+	return
+}
+
+func c17Gennaro(s *Suite, rng *Rng, thorough bool) {
+	nGood := 6
+	if thorough {
+		nGood = 60
+	}
+	var lastGood keyproof.QuasiSafePrimeProductProof
+	var lastN *gbig.Int
+	for it := 0; it < nGood; it++ {
+		bits := 24 + rng.Intn(24)
+		p, q := toyKeyPrimes(bits)
+		pp, qp := new(gbig.Int).Rsh(p, 1), new(gbig.Int).Rsh(q, 1)
+		n := new(gbig.Int).Mul(p, q)
+		c := rng.Bits(256)
+		_, proof := keyproof.VerifQuasiSafePrimeProductBuild(pp, qp, c)
+		st, ok, pan := qsppCase(s, "good", n, c, proof, false)
+		s.Nontrivial[fmt.Sprint("qspp-good", n)] = true
+		if !st || !ok || pan {
+			s.Violate("C17:good-modulus-rejected", fmt.Sprintf("quasi-safe prime product proof for N=%v (p=%v, q=%v) does not verify", n, p, q), L{p, q, c})
+			continue
+		}
+		lastGood, lastN = proof, n
+		// another challenge, another modulus
+		if _, ok2, _ := qsppCase(s, "other-challenge", n, new(gbig.Int).Add(c, bi(1)), proof, false); ok2 {
+			s.Violate("C17:qspp-accepted-under-other-challenge", "proof verifies under a different challenge", L{p, q, c})
+		}
+		p2, q2 := toyKeyPrimes(bits)
+		if _, ok2, _ := qsppCase(s, "other-modulus", new(gbig.Int).Mul(p2, q2), c, proof, false); ok2 {
+			s.Violate("C17:qspp-accepted-for-other-modulus", "proof verifies for a different modulus", L{p, q, p2, q2, c})
+		}
+		// every kind of response altered
+		nAlt := 12
+		if thorough {
+			nAlt = 60
+		}
+		for k := 0; k < nAlt; k++ {
+			var cp keyproof.QuasiSafePrimeProductProof
+			jsonClone(proof, &cp)
+			var leaves []leaf
+			collectLeaves("QSPP", reflect.ValueOf(&cp).Elem(), &leaves)
+			l := leaves[rng.Intn(len(leaves))]
+			how := alter(l, rng)
+			kind := kindOfPath(l.path) + ":" + how
+			st, ok, pan := qsppCase(s, "altered:"+kind, n, c, cp, false)
+			s.Nontrivial[fmt.Sprint("qspp-alt", n, l.path, how)] = true
+			if pan {
+				notePanic(s, kindOfPath(l.path))
+			}
+			if st && ok && !pan {
+				s.Violate("C17:altered-qspp-accepted:"+kindOfPath(l.path), "quasi-safe prime product proof verifies after alteration "+l.path+" "+how, L{p, q, c, l.path, how})
+			}
+		}
+	}
+	_ = lastGood
+	_ = lastN
+	// bad moduli with cheating provers
+	nBad := 3
+	if thorough {
+		nBad = 20
+	}
+	for it := 0; it < nBad; it++ {
+		c17BadModuli(s, rng, it)
+	}
+}
+
+// best-effort cheating: the prover knows the factorisation and computes whatever roots exist
+func c17BadModuli(s *Suite, rng *Rng, it int) {
+	one := bi(1)
+	smallPrime := func(bits int) *gbig.Int { // a prime >= 1031
+		for {
+			x := rng.Bits(bits)
+			x.SetBit(x, bits-1, 1).SetBit(x, 0, 1)
+			if x.Cmp(bi(1031)) >= 0 && x.ProbablyPrime(30) {
+				return x
+			}
+		}
+	}
+	p, q, r := smallPrime(14+rng.Intn(6)), smallPrime(14+rng.Intn(6)), smallPrime(14+rng.Intn(6))
+	for p.Cmp(q) == 0 || q.Cmp(r) == 0 || p.Cmp(r) == 0 {
+		q, r = smallPrime(16), smallPrime(17)
+	}
+	c := rng.Bits(256)
+	hashN := func(index int64, i int, n *gbig.Int) *gbig.Int {
+		x := gabi.VerifGetHashNumber(c, bi(index), i, uint(n.BitLen()))
+		return x.Mod(x, n)
+	}
+	// e-th root of x modulo n with known factorisation, if x is an e-th power residue: tries x^(e^-1 mod lambda') for the
+	// part of the group order coprime to e, then checks
+	root := func(x, e, n, phi *gbig.Int) *gbig.Int {
+		g := new(gbig.Int).GCD(nil, nil, e, phi)
+		ph := new(gbig.Int).Set(phi)
+		for g.Cmp(one) != 0 {
+			ph.Div(ph, g)
+			g.GCD(nil, nil, e, ph)
+		}
+		inv := new(gbig.Int).ModInverse(e, ph)
+		if inv == nil {
+			return bi(1)
+		}
+		y := new(gbig.Int).Exp(x, inv, n)
+		return y
+	}
+	sfResponses := func(n, phi *gbig.Int) []*gbig.Int {
+		var out []*gbig.Int
+		for i := 0; i < 8; i++ {
+			out = append(out, root(hashN(0, i, n), n, n, phi))
+		}
+		return out
+	}
+	check := func(kind string, which int, n *gbig.Int, rs []*gbig.Int) {
+		in := L{which, n, c, b2i(n.ProbablyPrime(40)), bigsOrNilV(rs)}
+		var st, ok bool
+		switch which {
+		case 0:
+			st, ok = keyproof.VerifSquareFreeVerify(n, c, bi(0), keyproof.SquareFreeProof{Responses: rs})
+		case 1:
+			st, ok = keyproof.VerifPrimePowerProductVerify(n, c, bi(1), keyproof.PrimePowerProductProof{Responses: rs})
+		case 2:
+			st, ok = keyproof.VerifDisjointPrimeProductVerify(n, c, bi(2), keyproof.DisjointPrimeProductProof{Responses: rs})
+		}
+		var out V
+		if which == 0 {
+			out = L{b2i(st), okV(b2i(ok))}
+		} else if !st {
+			out = L{0, nil}
+		} else {
+			out = L{1, okV(b2i(ok))}
+		}
+		s.Add(1704, "bad-modulus:"+kind, it == 0, in, out)
+		s.Nontrivial[fmt.Sprint("bad", kind, n)] = true
+		if st && ok {
+			s.Violate("C17:bad-modulus-accepted:"+kind, fmt.Sprintf("component proof accepts N=%v (%s)", n, kind), L{kind, n, c})
+		}
+	}
+	pm1 := func(x *gbig.Int) *gbig.Int { return new(gbig.Int).Sub(x, one) }
+	// not square-free: N = p^2 q
+	n1 := new(gbig.Int).Mul(new(gbig.Int).Mul(p, p), q)
+	phi1 := new(gbig.Int).Mul(new(gbig.Int).Mul(p, pm1(p)), pm1(q))
+	check("square-factor/squarefree", 0, n1, sfResponses(n1, phi1))
+	// three prime factors: prime power product proof (+-x, +-2x squares) with real square roots where they exist
+	n2 := new(gbig.Int).Mul(new(gbig.Int).Mul(p, q), r)
+	var ppp []*gbig.Int
+	for i := 0; i < 80; i++ {
+		x := hashN(1, i, n2)
+		cands := []*gbig.Int{x, new(gbig.Int).Mod(new(gbig.Int).Neg(x), n2), new(gbig.Int).Mod(new(gbig.Int).Lsh(x, 1), n2),
+			new(gbig.Int).Mod(new(gbig.Int).Neg(new(gbig.Int).Lsh(x, 1)), n2)}
+		resp := bi(1)
+		for _, cd := range cands {
+			if y, ok := gabi.VerifModSqrt(cd, []*gbig.Int{p, q, r}); ok {
+				resp = y
+				break
+			}
+		}
+		ppp = append(ppp, resp)
+	}
+	check("three-factors/primepowerproduct", 1, n2, ppp)
+	// a prime power N = p^2 and a prime N = p: disjoint prime product proof
+	n3 := new(gbig.Int).Mul(p, p)
+	phi3 := new(gbig.Int).Mul(p, pm1(p))
+	odd := func(n *gbig.Int) *gbig.Int {
+		o := pm1(n)
+		for o.Bit(0) == 0 && o.Sign() > 0 {
+			o.Rsh(o, 1)
+		}
+		return o
+	}
+	var dpp []*gbig.Int
+	for i := 0; i < 8; i++ {
+		dpp = append(dpp, root(hashN(2, i, n3), odd(n3), n3, phi3))
+	}
+	check("prime-power/disjointprimeproduct", 2, n3, dpp)
+	var dpp2 []*gbig.Int
+	for i := 0; i < 8; i++ {
+		dpp2 = append(dpp2, root(hashN(2, i, p), odd(p), p, pm1(p)))
+	}
+	check("prime/disjointprimeproduct", 2, p, dpp2)
+	// the combined proof on moduli of a forbidden shape: an honest-style prover for a product of two primes that are
+	// not safe (2ab+1 with two odd primes a, b), N not 5 mod 8, N with a factor below 1024
+	mk := func() (*gbig.Int, *gbig.Int) { // prime P = 2ab+1
+		for {
+			a, b := smallPrime(11+rng.Intn(4)), smallPrime(11+rng.Intn(4))
+			P := new(gbig.Int).Mul(a, b)
+			P.Lsh(P, 1).Add(P, one)
+			if P.ProbablyPrime(30) {
+				return P, new(gbig.Int).Mul(a, b)
+			}
+		}
+	}
+	P, _ := mk()
+	Q := nextSafePrime(rng, 30)
+	nb := new(gbig.Int).Mul(P, Q)
+	c17CheatQspp(s, rng, "factor-not-almost-safe", nb, []*gbig.Int{P, Q}, c, false)
+	// product of two safe primes with N not 5 mod 8
+	for tries := 0; tries < 200; tries++ {
+		a, b := nextSafePrime(rng, 28), nextSafePrime(rng, 28)
+		n := new(gbig.Int).Mul(a, b)
+		if new(gbig.Int).Mod(n, bi(8)).Int64() != 5 && a.Cmp(b) != 0 {
+			c17CheatQspp(s, rng, "not-5-mod-8", n, []*gbig.Int{a, b}, c, false)
+			break
+		}
+	}
+	// small factor
+	sp := bi([]int64{3, 7, 11, 23, 47, 59, 83, 107, 167, 179, 227, 263, 347, 359, 383, 467, 479, 503, 563, 587, 719, 839, 863, 887, 983, 1019}[rng.Intn(26)])
+	b := nextSafePrime(rng, 30)
+	c17CheatQspp(s, rng, "factor-below-1024", new(gbig.Int).Mul(sp, b), []*gbig.Int{sp, b}, c, false)
+}
+
+// an honest-style prover run on a modulus of forbidden shape: every response is computed with the real factorisation,
+// taking whichever root exists
+func c17CheatQspp(s *Suite, rng *Rng, kind string, n *gbig.Int, factors []*gbig.Int, c *gbig.Int, small bool) {
+	one := bi(1)
+	phi := bi(1)
+	for _, f := range factors {
+		phi.Mul(phi, new(gbig.Int).Sub(f, one))
+	}
+	hashN := func(a, b *gbig.Int, i int, bits uint) *gbig.Int { return gabi.VerifGetHashNumber(a, b, i, bits) }
+	var proof keyproof.QuasiSafePrimeProductProof
+	inv := func(e *gbig.Int) *gbig.Int {
+		ph := new(gbig.Int).Set(phi)
+		g := new(gbig.Int).GCD(nil, nil, e, ph)
+		for g.Cmp(one) != 0 {
+			ph.Div(ph, g)
+			g.GCD(nil, nil, e, ph)
+		}
+		return new(gbig.Int).ModInverse(e, ph)
+	}
+	m := inv(n)
+	for i := 0; i < 8; i++ {
+		x := hashN(c, bi(0), i, uint(n.BitLen()))
+		x.Mod(x, n)
+		proof.SFproof.Responses = append(proof.SFproof.Responses, new(gbig.Int).Exp(x, m, n))
+	}
+	for i := 0; i < 80; i++ {
+		x := hashN(c, bi(1), i, uint(n.BitLen()))
+		x.Mod(x, n)
+		cands := []*gbig.Int{x, new(gbig.Int).Mod(new(gbig.Int).Neg(x), n), new(gbig.Int).Mod(new(gbig.Int).Lsh(x, 1), n),
+			new(gbig.Int).Mod(new(gbig.Int).Neg(new(gbig.Int).Lsh(x, 1)), n)}
+		resp := bi(1)
+		for _, cd := range cands {
+			if y, ok := gabi.VerifModSqrt(cd, factors); ok {
+				resp = y
+				break
+			}
+		}
+		proof.PPPproof.Responses = append(proof.PPPproof.Responses, resp)
+	}
+	oddN := new(gbig.Int).Sub(n, one)
+	for oddN.Bit(0) == 0 {
+		oddN.Rsh(oddN, 1)
+	}
+	mo := inv(oddN)
+	for i := 0; i < 8; i++ {
+		x := hashN(c, bi(2), i, uint(n.BitLen()))
+		x.Mod(x, n)
+		proof.DPPproof.Responses = append(proof.DPPproof.Responses, new(gbig.Int).Exp(x, mo, n))
+	}
+	// almost-safe-prime-product part: logs known, roots of +-x, +-x/2 modulo the odd part of phi where they exist
+	oddPhi := new(gbig.Int).Set(phi)
+	for oddPhi.Bit(0) == 0 {
+		oddPhi.Rsh(oddPhi, 1)
+	}
+	var oddFactors []*gbig.Int
+	{
+		// factor the odd part of phi by trial division (toy sizes)
+		rest := new(gbig.Int).Set(oddPhi)
+		for d := int64(3); rest.Cmp(one) != 0 && d < 1<<22; d += 2 {
+			dd := bi(d)
+			for new(gbig.Int).Mod(rest, dd).Sign() == 0 {
+				if len(oddFactors) == 0 || oddFactors[len(oddFactors)-1].Cmp(dd) != 0 {
+					oddFactors = append(oddFactors, dd)
+				}
+				rest.Div(rest, dd)
+			}
+		}
+		if rest.Cmp(one) != 0 {
+			oddFactors = append(oddFactors, rest)
+		}
+	}
+	nonce := rng.Bits(256)
+	proof.ASPPproof.Nonce = nonce
+	half := new(gbig.Int).ModInverse(bi(2), oddPhi)
+	for i := 0; i < 250; i++ {
+		base := hashN(nonce, nil, i, uint(n.BitLen()))
+		base.Mod(base, n)
+		lg := rng.Below(phi)
+		proof.ASPPproof.Commitments = append(proof.ASPPproof.Commitments, new(gbig.Int).Exp(base, lg, n))
+		x := hashN(c, bi(3), i, uint(2*n.BitLen()))
+		l2 := new(gbig.Int).Mod(new(gbig.Int).Add(lg, x), phi)
+		x1 := new(gbig.Int).Mod(l2, oddPhi)
+		x2 := new(gbig.Int).Sub(oddPhi, x1)
+		x3 := new(gbig.Int).Mod(new(gbig.Int).Mul(half, x1), oddPhi)
+		x4 := new(gbig.Int).Sub(oddPhi, x3)
+		resp := bi(1)
+		squarefree := true
+		for _, f := range oddFactors {
+			if new(gbig.Int).Mod(new(gbig.Int).Div(oddPhi, f), f).Sign() == 0 {
+				squarefree = false
+			}
+		}
+		if squarefree {
+			for _, cd := range []*gbig.Int{x1, x2, x3, x4} {
+				if y, ok := gabi.VerifModSqrt(cd, oddFactors); ok {
+					resp = y
+					break
+				}
+			}
+		}
+		proof.ASPPproof.Responses = append(proof.ASPPproof.Responses, resp)
+	}
+	st, ok, pan := qsppCase(s, "bad-modulus:"+kind, n, c, proof, small)
+	s.Nontrivial[fmt.Sprint("bad-qspp", kind, n)] = true
+	if st && ok && !pan {
+		s.Violate("C17:bad-modulus-accepted:"+kind, fmt.Sprintf("quasi-safe prime product proof accepts N=%v (%s)", n, kind), L{kind, n, c})
+	}
+}
+
+// ---------- (b) components over small groups ----------
+
+func c17Components(s *Suite, rng *Rng, thorough bool) {
+	rounds := 3
+	if thorough {
+		rounds = 30
+	}
+	for round := 0; round < rounds; round++ {
+		gp := nextSafePrime(rng, 80+rng.Intn(40))
+		c := rng.Bits(256)
+		small := round == 0
+		// --- a single pedersen commitment
+		{
+			env, _ := keyproof.VerifNewEnv(gp)
+			fromSecrets := env.Add("v", rng.Bits(40))
+			envp := env.Proofs(c)
+			c17Component(s, rng, "pedersen", small, fromSecrets, true, &envp[0], 4, func(p interface{}) (bool, []*gbig.Int, bool, V) {
+				pr := p.(*keyproof.PedersenProof)
+				st, list, pan := keyproof.VerifPedersenCheck(gp, "v", c, *pr)
+				return st, list, pan, L{1710, L{gp, strV("v"), c, dPed(*pr)}}
+			}, func() interface{} { var cp keyproof.PedersenProof; jsonClone(envp[0], &cp); return &cp })
+		}
+		// --- multiplication: a*b = r (mod m)
+		{
+			env, _ := keyproof.VerifNewEnv(gp)
+			m := bi(int64(200 + rng.Intn(3000)))
+			a, b := rng.Below(m), rng.Below(m)
+			r := new(gbig.Int).Mod(new(gbig.Int).Mul(a, b), m)
+			names := []string{"a", "b", "m", "r"}
+			for i, v := range []*gbig.Int{a, b, m, r} {
+				env.Add(names[i], v)
+			}
+			l := uint(m.BitLen())
+			fromSecrets, proof, isTrue := env.VerifMulBuild("a", "b", "m", "r", l, c)
+			envp := env.Proofs(c)
+			c17Component(s, rng, "mul", false, fromSecrets, isTrue, &proof, 6, func(p interface{}) (bool, []*gbig.Int, bool, V) {
+				pr := p.(*keyproof.MultiplicationProof)
+				st, list, pan := keyproof.VerifMulCheck(gp, names, cloneEnv(envp), "a", "b", "m", "r", l, c, *pr)
+				return st, list, pan, L{1711, L{gp, dEnv(names, envp), L{strV("a"), strV("b"), strV("m"), strV("r")}, l, c, dMul(*pr)}}
+			}, func() interface{} { var cp keyproof.MultiplicationProof; jsonClone(proof, &cp); return &cp })
+		}
+		// --- exponentiation: b^e = r (mod m), bit length 3..6
+		{
+			env, _ := keyproof.VerifNewEnv(gp)
+			bl := uint(3 + rng.Intn(4))
+			m := bi(int64(5 + rng.Intn(1<<bl-6)))
+			b := rng.Below(m)
+			e := rng.Bits(int(bl))
+			r := new(gbig.Int).Exp(b, e, m)
+			names := []string{"b", "e", "m", "r"}
+			for i, v := range []*gbig.Int{b, e, m, r} {
+				env.Add(names[i], v)
+			}
+			fromSecrets, proof, isTrue := env.VerifExpBuild("b", "e", "m", "r", bl, c)
+			envp := env.Proofs(c)
+			chk := func(p interface{}) (bool, []*gbig.Int, bool, V) {
+				pr := p.(*keyproof.ExpProof)
+				st, list, pan := keyproof.VerifExpCheck(gp, names, cloneEnv(envp), "b", "e", "m", "r", bl, c, *pr)
+				return st, list, pan, L{1712, L{gp, dEnv(names, envp), L{strV("b"), strV("e"), strV("m"), strV("r")}, bl, c, dExp(*pr)}}
+			}
+			c17Component(s, rng, "exp", false, fromSecrets, isTrue, &proof, 10, chk,
+				func() interface{} { var cp keyproof.ExpProof; jsonClone(proof, &cp); return &cp })
+			// a simulated proof (as inside an OR-composition) must be structurally fine; the model must agree on its commitments
+			fake := keyproof.VerifExpFake(gp, "b", "e", "m", "r", bl, c)
+			st, list, pan, cs := chk(&fake)
+			csl := cs.(L)
+			s.Add(csl[0].(int), "exp:simulated", false, csl[1], checkV(st, list, pan))
+			if !st {
+				s.Violate("C17:simulated-proof-malformed", "a simulated exponentiation proof fails the structure check", L{gp, c})
+			}
+		}
+		// --- primality of a small prime
+		{
+			env, _ := keyproof.VerifNewEnv(gp)
+			bl := uint(4 + rng.Intn(3))
+			var x *gbig.Int
+			for {
+				x = rng.Bits(int(bl))
+				x.SetBit(x, int(bl)-1, 1).SetBit(x, 0, 1)
+				if x.ProbablyPrime(20) {
+					break
+				}
+			}
+			names := []string{"x"}
+			env.Add("x", x)
+			fromSecrets, proof := env.VerifPrimeBuild("x", bl, c)
+			envp := env.Proofs(c)
+			c17Component(s, rng, "prime", false, fromSecrets, true, &proof, 12, func(p interface{}) (bool, []*gbig.Int, bool, V) {
+				pr := p.(*keyproof.PrimeProof)
+				st, list, pan := keyproof.VerifPrimeCheck(gp, names, cloneEnv(envp), "x", bl, c, *pr)
+				return st, list, pan, L{1713, L{gp, dEnv(names, envp), strV("x"), bl, c, dPrime(*pr)}}
+			}, func() interface{} { var cp keyproof.PrimeProof; jsonClone(proof, &cp); return &cp })
+		}
+		// --- bases are squares modulo a toy modulus
+		{
+			p, q := nextSafePrime(rng, 8+rng.Intn(4)), nextSafePrime(rng, 8+rng.Intn(4))
+			for p.Cmp(q) == 0 {
+				q = nextSafePrime(rng, 9)
+			}
+			n := new(gbig.Int).Mul(p, q)
+			nb := 1 + rng.Intn(3)
+			var squares []*gbig.Int
+			for i := 0; i < nb; i++ {
+				r := rng.Below(n)
+				squares = append(squares, r.Mul(r, r).Mod(r, n))
+			}
+			fromSecrets, proof := keyproof.VerifIsSquareBuild(gp, p, q, squares, c)
+			c17Component(s, rng, "issquare", false, fromSecrets, true, &proof, 8, func(pi interface{}) (bool, []*gbig.Int, bool, V) {
+				pr := pi.(*keyproof.IsSquareProof)
+				st, list, pan := keyproof.VerifIsSquareCheck(gp, n, squares, c, *pr)
+				return st, list, pan, L{1714, L{gp, n, dumpBigs(squares), c, dIsSquare(*pr)}}
+			}, func() interface{} { var cp keyproof.IsSquareProof; jsonClone(proof, &cp); return &cp })
+			// the same proof against another base list
+			other := append([]*gbig.Int{}, squares...)
+			other[0] = new(gbig.Int).Add(other[0], bi(1))
+			st, list, pan := keyproof.VerifIsSquareCheck(gp, n, other, c, proof)
+			s.Add(1714, "issquare:other-bases", false, L{gp, n, dumpBigs(other), c, dIsSquare(proof)}, checkV(st, list, pan))
+			if st && !pan && sameList(list, fromSecrets) {
+				s.Violate("C17:other-bases-same-commitments", "bases-are-squares proof yields the prover's commitments for a different base list", L{gp, n, c})
+			}
+		}
+	}
+}
+
+func cloneEnv(e []keyproof.PedersenProof) []keyproof.PedersenProof {
+	var cp []keyproof.PedersenProof
+	jsonClone(e, &cp)
+	return cp
+}
+
+// c17Component: honest proof must reproduce the prover's commitments (completeness); every alteration of one leaf must
+// change the reconstructed commitments, fail the structure check, or crash - never reproduce them (binding)
+func c17Component(s *Suite, rng *Rng, name string, small bool, fromSecrets []*gbig.Int, isTrue bool, proof interface{}, nAlt int,
+	check func(interface{}) (bool, []*gbig.Int, bool, V), clone func() interface{}) {
+	if !isTrue {
+		s.Violate("C17:"+name+"-statement-false", "harness built a false statement", L{name})
+		return
+	}
+	st, list, pan, cs := check(clone())
+	csl := cs.(L)
+	s.Add(csl[0].(int), name+":honest", small, csl[1], checkV(st, list, pan))
+	s.Nontrivial[fmt.Sprint(name, "honest", S(csl[1])[:40])] = true
+	if !st || pan || !sameList(list, fromSecrets) {
+		s.Violate("C17:"+name+"-honest-proof-rejected", "commitments reconstructed from an honest "+name+" proof differ from the prover's (or structure check failed)", L{name})
+		return
+	}
+	// one alteration per kind of leaf (all kinds of the proof tree), plus nAlt random ones
+	var kinds []string
+	byKind := map[string][]int{}
+	{
+		cp := clone()
+		var leaves []leaf
+		collectLeaves(name, reflect.ValueOf(cp).Elem(), &leaves)
+		for i, l := range leaves {
+			k := kindOfPath(l.path)
+			if _, ok := byKind[k]; !ok {
+				kinds = append(kinds, k)
+			}
+			byKind[k] = append(byKind[k], i)
+		}
+		sort.Strings(kinds)
+	}
+	try := func(idx int, boundary int) {
+		cp := clone()
+		var leaves []leaf
+		collectLeaves(name, reflect.ValueOf(cp).Elem(), &leaves)
+		l := leaves[idx]
+		var how string
+		if boundary >= 0 {
+			how = alterBoundary(l, boundary)
+			if how == "" {
+				return
+			}
+		} else {
+			how = alter(l, rng)
+		}
+		kp := kindOfPath(l.path)
+		kind := name + ":altered:" + kp + ":" + how
+		st, list, pan, cs := check(cp)
+		csl := cs.(L)
+		s.Add(csl[0].(int), kind, false, csl[1], checkV(st, list, pan))
+		s.Nontrivial[fmt.Sprint(name, l.path, how)] = true
+		if pan {
+			notePanic(s, name)
+		}
+		if boundary < 0 && st && !pan && sameList(list, fromSecrets) {
+			s.Violate("C17:altered-"+name+"-proof-accepted:"+kp, name+" proof still yields the prover's commitments after alteration "+l.path+" "+how, L{name, l.path, how})
+		}
+		// the sub-challenges of an OR-composition are tied to the outer challenge by the structure check
+		if boundary < 0 && st && !pan && (strings.HasSuffix(kp, "Achallenge") || strings.HasSuffix(kp, "Bchallenge") ||
+			strings.HasSuffix(kp, "APlus1Challenge") || strings.HasSuffix(kp, "AMin1Challenge")) {
+			s.Violate("C17:or-challenge-not-checked", name+" proof passes the structure check with an altered OR sub-challenge ("+l.path+" "+how+"): both branches could be simulated", L{name, l.path, how})
+		}
+	}
+	for _, k := range kinds {
+		try(byKind[k][rng.Intn(len(byKind[k]))], -1)
+		if strings.HasSuffix(k, "Results{}") {
+			// size limit of range-proof results: values at and next to powers of two around the honest size
+			for b := 0; b < 4; b++ {
+				try(byKind[k][rng.Intn(len(byKind[k]))], b)
+			}
+		}
+	}
+	for k := 0; k < nAlt; k++ {
+		kk := kinds[rng.Intn(len(kinds))]
+		try(byKind[kk][rng.Intn(len(byKind[kk]))], -1)
+	}
+}
+
+// alterBoundary sets one entry of the largest-valued list of a range-proof result map to 2^(bitlen+d) - e
+func alterBoundary(l leaf, b int) string {
+	if l.v.Kind() != reflect.Map {
+		return ""
+	}
+	var best reflect.Value
+	bestBits := -1
+	for _, k := range l.v.MapKeys() {
+		lst := l.v.MapIndex(k)
+		if lst.Len() == 0 {
+			continue
+		}
+		if x, ok := lst.Index(0).Interface().(*gbig.Int); ok && x != nil && x.BitLen() > bestBits {
+			best, bestBits = k, x.BitLen()
+		}
+	}
+	if bestBits < 0 {
+		return ""
+	}
+	old := l.v.MapIndex(best)
+	n := reflect.MakeSlice(old.Type(), old.Len(), old.Len())
+	reflect.Copy(n, old)
+	maxBits := 0
+	for i := 0; i < n.Len(); i++ {
+		if x, ok := n.Index(i).Interface().(*gbig.Int); ok && x != nil && x.BitLen() > maxBits {
+			maxBits = x.BitLen()
+		}
+	}
+	v := pow2(uint(maxBits + b/2))
+	if b%2 == 1 {
+		v.Sub(v, bi(1))
+	}
+	n.Index(0).Set(reflect.ValueOf(v))
+	l.v.SetMapIndex(best, n)
+	return fmt.Sprintf("entry=2^(max+%d)-%d", b/2, b%2)
+}
+
+// ---------- (c) whole key proofs ----------
+
+func c17Whole(s *Suite, rng *Rng, thorough bool) {
+	nKeys := 1
+	nAlt := 10
+	if thorough {
+		nKeys = 4
+		nAlt = 60
+	}
+	for k := 0; k < nKeys; k++ {
+		bits := 48
+		if thorough {
+			bits = []int{48, 64, 80, 96}[k%4]
+		}
+		p, q := toyKeyPrimes(bits)
+		n := new(gbig.Int).Mul(p, q)
+		nb := 1 + rng.Intn(4)
+		var bases []*gbig.Int
+		for i := 0; i < nb; i++ {
+			r := rng.Below(n)
+			bases = append(bases, r.Mul(r, r).Mod(r, n))
+		}
+		st := keyproof.NewValidKeyProofStructure(n, bases)
+		proof := st.BuildProof(new(gbig.Int).Rsh(p, 1), new(gbig.Int).Rsh(q, 1))
+		desc := fmt.Sprintf("%d-bit primes, %d bases", bits, nb)
+		verify := func(kind string, stt keyproof.ValidKeyProofStructure, nn *gbig.Int, bb []*gbig.Int, pr keyproof.ValidKeyProof, model bool) (ok, panicked bool) {
+			var in V
+			if model {
+				gpP, hpP := false, false
+				if pr.GroupPrime != nil {
+					gpP = pr.GroupPrime.ProbablyPrime(80)
+					hpP = new(gbig.Int).Rsh(pr.GroupPrime, 1).ProbablyPrime(80)
+				}
+				in = L{nn, dumpBigs(bb), b2i(gpP), b2i(hpP), b2i(nn.ProbablyPrime(80)), dValidKey(pr)}
+			}
+			func() {
+				defer func() {
+					if r := recover(); r != nil {
+						panicked = true
+					}
+				}()
+				ok = stt.VerifyProof(pr)
+			}()
+			if model {
+				var out V = okV(b2i(ok))
+				if panicked {
+					out = panicV()
+				}
+				s.Add(1701, "whole:"+kind, false, in, out)
+			}
+			s.Dist["whole-verifications"]++
+			return
+		}
+		clone := func() keyproof.ValidKeyProof { var cp keyproof.ValidKeyProof; jsonClone(proof, &cp); return cp }
+		if ok, pan := verify("honest", st, n, bases, proof, true); !ok || pan {
+			s.Violate("C17:good-key-rejected", "key proof for a properly generated key ("+desc+") does not verify", L{p, q})
+			continue
+		}
+		s.Nontrivial[fmt.Sprint("whole", n)] = true
+		if ok, _ := verify("json-round-trip", st, n, bases, clone(), false); !ok {
+			s.Violate("C17:round-trip-rejected", "key proof does not verify after a JSON round trip ("+desc+")", L{p, q})
+		}
+		// another modulus, another base list
+		p2, q2 := toyKeyPrimes(bits)
+		n2 := new(gbig.Int).Mul(p2, q2)
+		if ok, _ := verify("other-modulus", keyproof.NewValidKeyProofStructure(n2, bases), n2, bases, clone(), true); ok {
+			s.Violate("C17:accepted-for-other-modulus", "key proof verifies against a different modulus", L{p, q, p2, q2})
+		}
+		b2 := append([]*gbig.Int{}, bases...)
+		b2[0] = new(gbig.Int).Mod(new(gbig.Int).Mul(b2[0], bi(4)), n)
+		if ok, _ := verify("other-bases", keyproof.NewValidKeyProofStructure(n, b2), n, b2, clone(), true); ok {
+			s.Violate("C17:accepted-for-other-bases", "key proof verifies against a different base list", L{p, q})
+		}
+		if nb > 1 {
+			if ok, _ := verify("fewer-bases", keyproof.NewValidKeyProofStructure(n, bases[:nb-1]), n, bases[:nb-1], clone(), false); ok {
+				s.Violate("C17:accepted-for-other-bases", "key proof verifies against a shorter base list", L{p, q})
+			}
+		}
+		// sampled alterations over the whole tree (all leaf kinds weighted equally)
+		{
+			cp := clone()
+			var leaves []leaf
+			collectLeaves("VK", reflect.ValueOf(&cp).Elem(), &leaves)
+			byKind := map[string][]int{}
+			var kinds []string
+			for i, l := range leaves {
+				k := kindOfPath(l.path)
+				if _, ok := byKind[k]; !ok {
+					kinds = append(kinds, k)
+				}
+				byKind[k] = append(byKind[k], i)
+			}
+			sort.Strings(kinds)
+			s.Notes["whole_proof_leaves"] = len(leaves)
+			s.Notes["whole_proof_leaf_kinds"] = len(kinds)
+			for a := 0; a < nAlt; a++ {
+				cp := clone()
+				var lv []leaf
+				collectLeaves("VK", reflect.ValueOf(&cp).Elem(), &lv)
+				kind := kinds[rng.Intn(len(kinds))]
+				idx := byKind[kind][rng.Intn(len(byKind[kind]))]
+				how := alter(lv[idx], rng)
+				ok, pan := verify("altered:"+kind+":"+how, st, n, bases, cp, a < 3)
+				s.Nontrivial[fmt.Sprint("whole-alt", n, lv[idx].path, how)] = true
+				s.Dist["whole-altered:"+kind]++
+				if pan {
+					notePanic(s, "whole")
+				}
+				if ok {
+					s.Violate("C17:altered-key-proof-accepted:"+kind, "key proof verifies after alteration "+lv[idx].path+" "+how, L{p, q, lv[idx].path, how})
+				}
+			}
+		}
+	}
 }
